@@ -541,6 +541,106 @@ func concurrentHistory(s sink.Sink, rng *rand.Rand, sample bool) {
 	}
 }
 
+// slowClient: the client reads its event stream late. Whatever the watcher's buffers look like,
+// every progressed and concluded event must still arrive, and registered events with increasing
+// versions once each, in order.
+func slowClient(s sink.Sink, rng *rand.Rand) {
+	w := newWorld(rng)
+	defer w.shutdown()
+	if msg := w.startP(); msg != "" {
+		s.Inconclusive(msg)
+		return
+	}
+	w.rs.mu.Lock()
+	sub := w.rs.subs[w.ids[0]]
+	w.rs.mu.Unlock()
+	n := 11 + rng.Intn(10)
+	var want []string
+	var evs []channel.AdjudicatorEvent
+	ver := uint64(0)
+	for i := 0; i < n; i++ {
+		switch k := rng.Intn(3); {
+		case i == n-1 || k == 0 && i > n/2:
+			evs = append(evs, channel.NewConcludedEvent(w.ids[0], &channel.ElapsedTimeout{}, ver))
+			want = append(want, "concluded")
+		case k == 1:
+			ver++
+			evs = append(evs, channel.NewRegisteredEvent(w.ids[0], &channel.ElapsedTimeout{}, ver, nil, nil))
+			want = append(want, fmt.Sprintf("registered(v%d)", ver))
+		default:
+			evs = append(evs, channel.NewProgressedEvent(w.ids[0], &channel.ElapsedTimeout{}, &channel.State{ID: w.ids[0], Version: ver}, 0))
+			want = append(want, "progressed")
+		}
+	}
+	fed := make(chan int, 1)
+	var handed int64
+	go func() {
+		for i, e := range evs {
+			select {
+			case sub.events <- e:
+				atomic.StoreInt64(&handed, int64(i+1))
+			case <-time.After(30 * time.Second):
+				fed <- i
+				return
+			}
+		}
+		fed <- len(evs)
+	}()
+	// the client is busy elsewhere: it starts reading only when the watcher has stopped taking
+	// events (its buffers are full) or everything has been handed over
+	last, stable := int64(-1), 0
+	for stable < 20 {
+		time.Sleep(2 * time.Millisecond)
+		if h := atomic.LoadInt64(&handed); h == last {
+			stable++
+		} else {
+			last, stable = h, 0
+		}
+		if atomic.LoadInt64(&handed) == int64(len(evs)) {
+			break
+		}
+	}
+	var got []string
+	deadline := time.After(40 * time.Second)
+	done := -1
+collect:
+	for len(got) < len(want) {
+		select {
+		case e, ok := <-w.subs[0].EventStream():
+			if !ok {
+				break collect
+			}
+			switch x := e.(type) {
+			case *channel.RegisteredEvent:
+				got = append(got, fmt.Sprintf("registered(v%d)", x.Version()))
+			case *channel.ProgressedEvent:
+				got = append(got, "progressed")
+			case *channel.ConcludedEvent:
+				got = append(got, "concluded")
+			}
+		case k := <-fed:
+			done = k
+			if k < len(evs) {
+				s.Inconclusive("watchdog: the watcher stopped taking events although the client was reading")
+				return
+			}
+		case <-deadline:
+			break collect
+		case <-time.After(3 * time.Second):
+			if done == len(evs) {
+				break collect // everything was handed over and nothing more arrives
+			}
+		}
+	}
+	s.Count("slow_client_histories", 1)
+	s.Count("slow_client_events", int64(len(evs)))
+	s.Case(fmt.Sprintf("slow-client %v", want), true)
+	if fmt.Sprint(got) != fmt.Sprint(want) {
+		s.Violation("C05/slow-client/relay", fmt.Sprintf("a client that read its event stream late received %d of %d events: got %v, want %v", len(got), len(want), got, want),
+			cWitness{Problem: fmt.Sprintf("got %v want %v", got, want)})
+	}
+}
+
 func runConcurrent(s sink.Sink, cfg props.Cfg, n int, stream string, workers int) {
 	var wg sync.WaitGroup
 	per := (n + workers - 1) / workers
@@ -551,6 +651,10 @@ func runConcurrent(s sink.Sink, cfg props.Cfg, n int, stream string, workers int
 			defer wg.Done()
 			rng := gen.NewRand(cfg.Seed, fmt.Sprintf("c05/conc/%s/%d", stream, wk))
 			for i := 0; i < per; i++ {
+				if i%16 == 7 {
+					slowClient(s, rng)
+					continue
+				}
 				concurrentHistory(s, rng, wk == 0 && i < 2)
 			}
 		}()
